@@ -156,20 +156,33 @@ def strip_comments(txt):
 
 
 def lean_audit(prop_id, extra_modules=()):
-    """Build DudModel.Props.<id>, audit axioms of every theorem in it.
-    Returns dict(obligations, discharged, failures:list[str], axioms:dict, log)."""
-    mod = "DudModel.Props." + prop_id
-    path = os.path.join(LEAN, "DudModel", "Props", prop_id + ".lean")
+    """Build every DudModel/Props/<id>*.lean and audit the axioms of every theorem in them."""
+    import glob
+    files = sorted(glob.glob(os.path.join(LEAN, "DudModel", "Props", prop_id + "*.lean")))
     res = dict(obligations=0, discharged=0, failures=[], axioms={}, log="", theorems=[])
-    if not os.path.exists(path):
-        res["failures"].append("missing " + path)
+    if not files:
+        res["failures"].append("missing DudModel/Props/%s*.lean" % prop_id)
         return res
+    for f in files:
+        one = lean_audit_file(f)
+        res["obligations"] += one["obligations"]
+        res["discharged"] += one["discharged"]
+        res["failures"] += one["failures"]
+        res["axioms"].update(one["axioms"])
+        res["theorems"] += one["theorems"]
+        res["log"] += one["log"][-2000:]
+    return res
+
+
+def lean_audit_file(path):
+    name = os.path.basename(path)[:-5]
+    mod = "DudModel.Props." + name
+    res = dict(obligations=0, discharged=0, failures=[], axioms={}, log="", theorems=[])
     regen_facts()
     thms = theorems_of(path)
     res["theorems"] = thms
     res["obligations"] = len(thms)
     # forbidden constructs in every module the property file pulls in from this project
-    srcs = [path]
     seen = set()
     todo = [path]
     while todo:
@@ -183,10 +196,9 @@ def lean_audit(prop_id, extra_modules=()):
         bad = FORBIDDEN.search(strip_comments(open(p).read()))
         if bad:
             res["failures"].append("forbidden construct %r in %s" % (bad.group(0).strip(), os.path.relpath(p, LEAN)))
-    rc, log = lake_build([mod] + list(extra_modules))
+    rc, log = lake_build([mod])
     res["log"] = log[-6000:]
     if rc != 0:
-        # which declarations failed
         failed = set()
         for m in re.finditer(r"error: ([^\n:]+\.lean):(\d+):(\d+)", log):
             f, ln = m.group(1), int(m.group(2))
@@ -194,7 +206,7 @@ def lean_audit(prop_id, extra_modules=()):
             failed.add("%s:%d %s" % (os.path.relpath(fp, LEAN), ln, enclosing_decl(fp, ln)))
         res["failures"].append("lake build %s failed: %s" % (mod, "; ".join(sorted(failed)) or "see log"))
         return res
-    audit = os.path.join(scratch(), "Audit_%s.lean" % prop_id)
+    audit = os.path.join(scratch(), "Audit_%s.lean" % name)
     with open(audit, "w") as f:
         f.write("import %s\n" % mod)
         for t in thms:
@@ -202,19 +214,16 @@ def lean_audit(prop_id, extra_modules=()):
     rc, so, se = run(["lake", "env", "lean", audit], cwd=LEAN, timeout=900)
     out = (so + se).decode(errors="replace")
     if rc != 0:
-        res["failures"].append("axiom audit failed: " + out[-2000:])
+        res["failures"].append("axiom audit of %s failed: %s" % (mod, out[-2000:]))
         return res
-    cur = None
-    for chunk in re.split(r"(?=')", out):
-        pass
     for m in re.finditer(r"'(\S+)' (does not depend on any axioms|depends on axioms: \[([^\]]*)\])", out):
-        name = m.group(1)
+        nm = m.group(1)
         axs = set(a.strip() for a in (m.group(3) or "").replace("\n", " ").split(",") if a.strip())
-        res["axioms"][name] = sorted(axs)
+        res["axioms"][nm] = sorted(axs)
         if axs <= ALLOWED_AXIOMS:
             res["discharged"] += 1
         else:
-            res["failures"].append("theorem %s depends on %s" % (name, sorted(axs - ALLOWED_AXIOMS)))
+            res["failures"].append("theorem %s depends on %s" % (nm, sorted(axs - ALLOWED_AXIOMS)))
     missing = [t for t in thms if t not in res["axioms"]]
     if missing:
         res["failures"].append("no axiom report for " + ", ".join(missing))
